@@ -13,6 +13,8 @@ pub static mut CRASH_AT: usize = usize::MAX;
 pub static mut CRASHED: bool = false;
 /// Observer run at the crash point under Kani (natively the harness observes after catch_unwind).
 pub static mut OBSERVER: Option<fn()> = None;
+/// When set, every `Tok::drop` is a call into caller-supplied code (it may be the crash point).
+pub static mut DROP_TICKS: bool = false;
 
 pub fn reset() {
     unsafe {
@@ -22,6 +24,7 @@ pub fn reset() {
         CRASH_AT = usize::MAX;
         CRASHED = false;
         OBSERVER = None;
+        DROP_TICKS = false;
         ZLIVE = 0;
         ZMADE = 0;
     }
@@ -75,6 +78,10 @@ impl Drop for Tok {
             assert!(i < NTOK, "ORACLE: dropping something that is not a live element (garbage id)");
             LIVE[i] -= 1;
             assert!(LIVE[i] >= 0, "ORACLE: element dropped twice");
+            if DROP_TICKS {
+                // the destructor ran (the ledger entry is released) and then panics
+                caller_code();
+            }
         }
     }
 }
